@@ -16,6 +16,9 @@ CHECKS = {
  "C16": dict(level="exploration", technique="reference-model + invariant monitor over live cwd/$PWD/$OLDPWD/DIRSTACK after every step of generated histories",
    text="Histories of cd/pushd/popd/dirs (every argument form), path-literal cd() blocks and behind-the-back chdir + _fix_cwd run against the real builtins in a tree with symlinks, deleted and really inaccessible directories (DAC capabilities dropped); after each of ~250k steps the live state is checked against invariants (PWD names cwd, failure changes nothing, stack bound, OLDPWD) and the documented model.",
    note="Model = DESIGN Appendix A.4; steps whose logical and physical path readings differ are judged on invariants only; the current directory is never removed.", ref="§2 C16, A.4"),
+ "C20": dict(level="exploration", technique="reference-model + structural-invariant monitor on the live job table; sys.monitoring schedule perturbation for the two-thread layer",
+   text="Stub jobs with scripted poll() go through the real add_job; after each of ~200k steps of start/exit/jobs/fg/bg/disown histories (main thread and alias-like worker thread) the dict+deque pair is compared with the A.5 model and structural invariants; a two-thread layer with seeded delay injection on every jobs.py function records exceptions and divergence at quiescence.",
+   note="Model = DESIGN Appendix A.5. Stub jobs signal nobody (pids=[None]). `disown` of a finished-but-unpurged job is accepted either way. The two-thread layer currently always ends in the listed unsynchronised-table finding, so it cannot separate further concurrency regressions from it.", ref="§2 C20, A.5"),
 }
 NOT_BUILT = "check not built yet in this session (planned, see DESIGN.md §2); nothing is claimed for it"
 def main():
